@@ -2,6 +2,62 @@
 import math
 import numpy as np
 from harness.props._common import run_eval, replay_eval
+from harness.coqcases import run_bool_cases
+
+COQ_TARGETS = ["BlackBox"]
+BHEADER = ("From Coq Require Import List Bool Arith.\nFrom QV Require Import BlackBox CaseLib.\nImport ListNotations.\n")
+
+
+def mux_ref(kind, angles):
+    """block-diagonal reference of a multiplexed rotation: target = first qubit, block k = rotation by angles[k]"""
+    N = len(angles)
+    ref = np.zeros((2 * N, 2 * N), complex)
+    for k, t in enumerate(angles):
+        if kind == "y":
+            ref[2 * k:2 * k + 2, 2 * k:2 * k + 2] = [[np.cos(t / 2), -np.sin(t / 2)], [np.sin(t / 2), np.cos(t / 2)]]
+        else:
+            ref[2 * k:2 * k + 2, 2 * k:2 * k + 2] = np.diag([np.exp(-1j * t / 2), np.exp(1j * t / 2)])
+    return ref
+
+
+def flat_gates(c, n, th, ph, check_ops):
+    """the definition in the alphabet of BlackBox.v; None + reason when an instruction has no counterpart"""
+    from qiskit.quantum_info import Operator
+    out = []
+    for inst in c.data:
+        op = inst.operation
+        if op.name in ("U", "U_dg"):
+            d = op.definition
+            for i in d.data:
+                nm = i.operation.name
+                qs = [d.find_bit(q).index for q in i.qubits]
+                pr = np.array([float(x) for x in i.operation.params])
+                if nm == "h" and len(qs) == 1 and qs[0] >= 1:
+                    out.append(f"BH {qs[0]}")
+                    continue
+                if qs != list(range(n + 1)):
+                    return None, f"{nm} inside {op.name} acts on {qs}"
+                table = th if nm.startswith("ucry") else ph
+                if len(pr) != len(table) or not np.array_equal(pr, table):
+                    return None, f"{nm} inside {op.name} carries a different angle table"
+                if nm in ("ucry", "ucrz") and op.name == "U":
+                    out.append("BUcry" if nm == "ucry" else "BUcrz")
+                elif nm in ("ucry_dg", "ucrz_dg") and op.name == "U_dg":
+                    # the inverse keeps the table; its operator must be the multiplexer of the negated angles
+                    if check_ops and not np.allclose(Operator(i.operation).data, mux_ref("y" if nm == "ucry_dg" else "z", -table), atol=1e-9):
+                        return None, f"{nm} is not the multiplexer of the negated angles"
+                    out.append("BUcryd" if nm == "ucry_dg" else "BUcrzd")
+                else:
+                    return None, f"unexpected {nm} inside {op.name}"
+            if abs(float(d.global_phase)) > 1e-12:
+                return None, f"{op.name} has a global phase"
+        elif op.name == "I_t":
+            out.append("BIt")
+        elif op.name.startswith("I_s"):
+            out.append("BIs")
+        else:
+            return None, f"unexpected instruction {op.name}"
+    return out, None
 
 PROPS_FILES = ["P_C19", "P_C19mx"]
 PROPS_FILE = "P_C19"
@@ -36,6 +92,7 @@ def structure(ctx):
     from qclib.state_preparation.blackbox import BlackBoxInitialize
     from qiskit.quantum_info import Operator
     nmax = 7 if ctx.quick else 8
+    lines, cases = [], []
     for n in range(1, nmax + 1):
         N = 2 ** n
         r_prop = math.isqrt(int((math.pi ** 2) * N / 16 * 10 ** 12) // 10 ** 12 + 0) if False else int(math.floor(math.pi * math.sqrt(N) / 4))
@@ -86,6 +143,19 @@ def structure(ctx):
                             bad = "UCRZ angles are not -2 arg a_k"
                 if bad:
                     ctx.mismatch("C19 structural tie: " + bad, case)
+                    continue
+                # gate list in the alphabet of BlackBox.v, compared inside Coq with bb_circuit n r
+                fl, why = flat_gates(c, n, th, ph, check_ops=(n <= 4))
+                ctx.monitor("gate_list_correspondence")
+                if fl is None:
+                    ctx.mismatch("C19 correspondence: " + why, case)
+                    continue
+                lines.append(f"(list_eqb bgate_eqb (bb_circuit {n} {r_prop}) [{'; '.join(fl)}])")
+                cases.append(case)
+
+    def on_fail(cs):
+        ctx.mismatch("C19 correspondence: gate list of BlackBoxInitialize differs from the Coq model BlackBox.bb_circuit", cs)
+    run_bool_cases(ctx, "c19_bb", BHEADER, lines, cases, on_fail, shard=12)
 
 
 def primitives(ctx):
@@ -120,7 +190,14 @@ def replay(ctx, case):
 
 
 MANIFEST = dict(
-    text="Proof (PARTIAL): the two-dimensional recurrence of the amplification rounds gives (-1)^j(sin((2j+1)t), cos((2j+1)t)) for every j and t (C19_grover_rec) and the oracle loads modulus m and sqrt(1-m^2) provided 0<=m<=1 (C19_oracle_flag - the hypothesis binary64 violated before the repair). Tie: the definition must be (U, I_t, U^-1, I_s)^r U with r = floor(pi sqrt(N)/4), global phase pi iff r odd, U = H; UCRY; UCRZ, with angles satisfying the theorem's premises. The reduction of the n-qubit circuit to the recurrence and the flagged branch are evaluated.",
-    note='Modelled, not verified: Qiskit UCRY/UCRZ multiplexer convention (validated per run); reduction to the 2-D recurrence evaluated.',
-    technique='Coq proof (trigonometric induction) + structural tie of the instruction list + angle contract + state-vector evaluation',
+    text=("Proof (FULL on the model): for every n, every number of rounds r and every pair of angle tables whose moduli cos(th_k/2) are normalised, the gate list "
+          "BlackBox.bb_circuit n r = U ; (I_t ; U^-1 ; I_s ; U)^r with U = H on the data ; UCRY(th) ; UCRZ(ph), run from |0..0> and multiplied by the global phase (-1)^r, has on the flag = 0 "
+          "branch exactly sin((2r+1) asin(1/sqrt N)) a_k with a_k = cos(th_k/2) e^{-i ph_k/2}, zeros and unit-modulus amplitudes included (C19_flag0_branch_asin; C19_flag0_branch for any t with "
+          "sin t = 1/sqrt N), and on the flag = 1 branch cos((2r+1)t) b_k / sqrt(N-1) (C19_flag1_branch); the state never leaves the plane of the two (C19_circuit_state). "
+          "C19_grover_rec is the two-dimensional recurrence, C19_oracle_flag the modulus loaded by theta = 2 acos m for 0 <= m <= 1 (the hypothesis binary64 violated before the repair). "
+          "Tie: the definition of BlackBoxInitialize, flattened into the model alphabet, is compared inside Coq with bb_circuit n r for r = floor(pi sqrt(N)/4) computed independently; global phase pi iff r "
+          "odd; every angle table in U and U^-1 equals the contract-checked one (cos(theta_k/2) = |a_k|, phi_k = -2 arg a_k, i.e. a_k of the theorem is the input amplitude); the inverse "
+          "multiplexers are compared with the negated-angle multiplexer as matrices for n <= 4. The flagged branch is also evaluated on state vectors."),
+    note='Modelled, not verified: Qiskit UCRY/UCRZ multiplexer convention and h matrix (validated per run); floor(pi sqrt(N)/4) computed in binary64 by the harness.',
+    technique='Coq proof (invariant plane of the amplification rounds in the assignment semantics + trigonometric induction) + gate-list correspondence (vm_compute) + angle contract + state-vector evaluation',
     design_ref='DESIGN.md section 4, C19')
